@@ -289,7 +289,7 @@ _NOT_PANIC = [r'::ensures\.', r'::loop\d+\.', r'::closure\d+\.', r'no_shadow', r
 PROPS['C09']['units'].append({'template': 'expr.rs', 'rlimit': 30, 'items': [r'^datalog::expression::', r'^token::builder::expression::'], 'exclude_obligations': _NOT_PANIC, 'quick_canaries': ['display-unwrap']})
 PROPS['C09']['units'].append({'template': 'convops.rs', 'rlimit': 30, 'items': [r'^format::convert::v2::proto_op_to_token_op$'], 'exclude_obligations': _NOT_PANIC, 'quick_canaries': []})
 PROPS['C09']['units'].append({'template': 'convterm.rs', 'rlimit': 30, 'items': [r'^format::convert::v2::proto_id_to_token_term$'], 'exclude_obligations': _NOT_PANIC, 'quick_canaries': []})
-PROPS['C09']['units'].append({'template': 'srcconv.rs', 'rlimit': 30, 'items': [r'^token::builder::scope::']})
+PROPS['C09']['units'].append({'template': 'srcconv.rs', 'rlimit': 30, 'items': [r'^token::builder::scope::', r'^token::builder::term::']})
 PROPS['C09']['units'].append({'template': 'loadb.rs', 'rlimit': 30, 'items': _LOADB['items'],
                               # the two clauses that guard the indexing of blocks[0] in authorize_inner DO count for panic-freedom
                               'exclude_obligations': [r'::ensures\.(?!blocks)', r'::loop\d+\.', r'::closure\d+\.'], 'quick_canaries': ['snapshot-empty-blocks-some']})
@@ -342,6 +342,7 @@ WITNESS = {
     r'Authorizer::authorize::arith': 'tools/replay.sh snapshot_iteration_underflow',
     r'World::run_with_limits::arith\[self.iterations': 'tools/replay.sh snapshot_iteration_overflow',
     r'UnverifiedBiscuit::block::ensures\.decoded': 'tools/replay.sh unverified_third_party_print',
+    r'token::builder::term::SystemTime::TryFrom::try_from::': 'tools/replay.sh query_date_overflow',
     r'token::builder::scope::Scope::From::from::': 'tools/replay.sh datalog_source_short_key',
     r'token::builder::expression::Expression::Display::fmt::': 'tools/replay.sh dump_malformed_expression',
     r'Expression::evaluate::call-pre\(datalog::expression::Binary::evaluate_with_closure::requires.no_shadow': 'tools/replay.sh closure_shadowing',
